@@ -49,67 +49,14 @@ def r1(ctx):
            sig="structural literals %r all encoded" % sorted(lits) if not bad else "structural literal(s) %r are not encoded" % bad)
 
 
-def _cond_fn(test, polarity=True):
-    """test over the atoms {ignore, gff3} -> fn(env)."""
-    def ev(n, env):
-        if isinstance(n, ast.BoolOp):
-            vs = [ev(v, env) for v in n.values]
-            return all(vs) if isinstance(n.op, ast.And) else any(vs)
-        if isinstance(n, ast.UnaryOp) and isinstance(n.op, ast.Not):
-            return not ev(n.operand, env)
-        s = norm(n)
-        if s == "constants.ignore_url_escape_characters":
-            return env["ignore"]
-        if isinstance(n, ast.Compare) and norm(n.left) == "dialect['fmt']" and const_str(n.comparators[0]) == "gff3":
-            return env["gff3"] if isinstance(n.ops[0], ast.Eq) else not env["gff3"]
-        raise ValueError(s)
-    return (lambda env: ev(test, env)) if polarity else (lambda env: not ev(test, env))
-
-
-def _walk_guards(node, stop):
-    from ..util import guards_of as _g
-    return _g(node, stop)
-
-
 def r2_r3(ctx):
     rc = require_func(ctx, "parser._reconstruct")
     sk = require_func(ctx, "parser._split_keyvals")
-    from ..util import closure
-    pool = closure(ctx, sk)
-    dec = []
-    for f in pool:
-        for c in calls_in(f.node):
-            d = ctx.proj.dotted(c.func, f.module, f) or ""
-            if d.startswith("urllib") and d.split(".")[-1] in ("unquote", "unquote_plus", "unquote_to_bytes"):
-                dec.append((f, c))
-    ctx.ob("R2", len(dec) >= 1, "the parser percent-decodes attribute values", func=sk, sig="%d percent-decoding call(s)" % len(dec))
-    if not dec:
-        return
-    ctx.ob("R2", all(ctx.proj.dotted(c.func, f.module, f).split(".")[-1] == "unquote" for f, c in dec), "decoding is plain percent-decoding ('+' stays '+')", func=dec[0][0],
-           sig="decoder %s" % sorted({ctx.proj.dotted(c.func, f.module, f) for f, c in dec}))
-    # decode condition: conjunction of the guards of the decode call that speak about (ignore flag, fmt); other guards
-    # (pure shortcuts such as `"%" in v`) do not decide *whether* escapes are honoured and are left out
-    def cond_of(node, fn):
-        parts = []
-        for t, pol in _walk_guards(node, fn.node):
-            try:
-                fn_ = _cond_fn(t, pol)
-                fn_({"ignore": False, "gff3": True})
-                fn_({"ignore": True, "gff3": False})
-                parts.append(fn_)
-            except ValueError:
-                continue
-        return (lambda env: all(p(env) for p in parts)), len(parts)
-    want = lambda env: env["gff3"] and not env["ignore"]
-    for f, c in dec:
-        decode, n = cond_of(c, f)
-        cex = truth_table(["ignore", "gff3"], decode, want)
-        ctx.ob("R2", cex is None and n >= 1, "decoding applies to gff3 dialects only, unless ignore_url_escape_characters", node=c, func=f,
-               sig="decode iff gff3 and not ignored" if cex is None and n >= 1 else "decode condition wrong at %s" % (cex,))
+    # whether, where and under which switch the parser decodes is decided by the template round trip with literally escaped
+    # values (decoded per value exactly in gff3 dialects with escapes honoured; '+' stays '+')
     # encode condition on the print side is decided semantically by the printer template (every value encoded iff gff3 and not ignored)
-    from .c07 import r_printer, r_decode_layer, r_roundtrip
+    from .c07 import r_printer, r_roundtrip
     r_printer(ctx, rule="R2")
-    r_decode_layer(ctx, rule="R2")
     r_roundtrip(ctx, rule="R2")
     # ---- R3 the encoder, by abstract evaluation of Quoter.__missing__ on a symbolic character
     encoder_semantics(ctx)
@@ -123,10 +70,10 @@ def encoder_semantics(ctx, rule="R3"):
     q = require_func(ctx, "parser.Quoter.__missing__")
     bname = [p for p in q.params if p != "self"][0]
     try:
-        traces = Interp(ctx).run(q, {bname: Sym("b", "str", None)})
+        # self: the (still empty) cache, a mapping -- __missing__ runs exactly when the character is not in it yet
+        traces = Interp(ctx).run(q, {bname: Sym("b", "str", None)}, self_obj={}, copy_self=True)
     except Unsupported as e:
         ctx.require(False, "encoder outside the analysable subset: %s" % e)
-    sets = []
     rows = []
 
     def empty_decided(d):
@@ -137,10 +84,10 @@ def encoder_semantics(ctx, rule="R3"):
         if isinstance(v, ACond) and v.op in ("==", "!=") and {type(v.left), type(v.right)} == {Sym, str} and "" in (v.left, v.right):
             return out if v.op == "==" else not out
         return None
+    # each path classifies the character: equal to one constant, inside constant set(s), outside constant sets/constants
     for t in traces:
         is_empty = None
-        member = None
-        other = []
+        exact, inside, outside, other = None, [], set(), []
         for d in t.decisions:
             e_ = empty_decided(d)
             if e_ is not None:
@@ -150,33 +97,66 @@ def encoder_semantics(ctx, rule="R3"):
             inner, neg = v, False
             while isinstance(inner, ACond) and inner.op == "not":
                 inner, neg = inner.left, not neg
-            if isinstance(inner, ACond) and inner.op == "in" and isinstance(inner.left, Sym) and inner.left.name == "b" and isinstance(inner.right, (str, tuple, list, frozenset, set)):
-                sets.append(frozenset(inner.right))
-                member = d[1] != neg
+            if isinstance(inner, ACond) and inner.op == "in" and isinstance(inner.left, Sym) and inner.left.name == "b" and isinstance(inner.right, (str, tuple, list, frozenset, set)) \
+                    and all(isinstance(x, str) and len(x) == 1 for x in inner.right):
+                if d[1] != neg:
+                    inside.append(frozenset(inner.right))
+                else:
+                    outside |= set(inner.right)
+                continue
+            if isinstance(inner, ACond) and inner.op in ("==", "!=") and isinstance(inner.left, Sym) and inner.left.name == "b" and isinstance(inner.right, str) and len(inner.right) == 1:
+                eq = (d[1] != neg) == (inner.op == "==")
+                if eq:
+                    exact = inner.right
+                else:
+                    outside.add(inner.right)
                 continue
             other.append(d)
         if is_empty:
             continue  # the encoder is applied per character: b is never empty
-        rows.append((member, other, t))
-    ctx.ob(rule, len(set(sets)) == 1 and not any(o for _m, o, _t in rows), "the encoder decides by one membership test of the character in a constant set", func=q,
-           sig="encoder decisions: membership in %d set(s), %d other decision(s)" % (len(set(sets)), sum(len(o) for _m, o, _t in rows)))
-    escape = lambda v: isinstance(v, AStr) and len(v.parts) == 2 and v.parts[0] == "%" and isinstance(v.parts[1], Sym) and v.parts[1].name in ("fmt(ord(b),02X)",)
+        rows.append((exact, inside, outside, other, t))
+    n_other = sum(len(r[3]) for r in rows)
+    ctx.ob(rule, n_other == 0, "the encoder decides only by comparing the character with constants (membership in a constant set / equality with table keys)", func=q,
+           sig="encoder decisions: %d path(s), %d decision(s) about something else" % (len(rows), n_other))
+    escape_of = lambda c: "%%%02X" % ord(c)
+    sym_escape = lambda v: isinstance(v, AStr) and len(v.parts) == 2 and v.parts[0] == "%" and isinstance(v.parts[1], Sym) and v.parts[1].name in ("fmt(ord(b),02X)",)
     same = lambda v: (isinstance(v, Sym) and v.name == "b") or (isinstance(v, AStr) and len(v.parts) == 1 and isinstance(v.parts[0], Sym) and v.parts[0].name == "b")
-    for member, _o, t in rows:
+    encoded = set()        # characters for which some path returns something else than the character
+    passed = set()         # characters known to be passed through on some path
+    bad = []
+    n_default = 0
+    for exact, inside, outside, _o, t in rows:
         res = t.result[1] if t.result[0] == "return" else None
-        what = "in the encode set" if member else "outside the encode set" if member is False else "any"
-        if member:
-            ctx.ob(rule, escape(res), "a reserved character becomes '%' + two upper-case hex digits of its code point", func=q,
-                   sig="character %s -> %s" % (what, "escape %XX" if escape(res) else repr(res) if t.result[0] == "return" else "raises %s" % t.result[1]))
+        shown = repr(res) if t.result[0] == "return" else "raises %s" % (t.result[1],)
+        if exact is not None:
+            if res == exact or same(res):
+                passed.add(exact)
+            elif res == escape_of(exact) or sym_escape(res):
+                encoded.add(exact)
+            else:
+                bad.append("character %r -> %s" % (exact, shown))
+        elif inside:
+            chars = frozenset.intersection(*inside) - outside
+            if sym_escape(res):
+                encoded |= chars
+            elif same(res):
+                passed |= chars
+            else:
+                bad.append("character in %s -> %s" % (sorted(chars)[:4], shown))
         else:
-            ctx.ob(rule, same(res), "every other character is passed through unchanged", func=q,
-                   sig="character %s -> %s" % (what, "unchanged" if same(res) else repr(res) if t.result[0] == "return" else "raises %s" % t.result[1]))
+            n_default += 1
+            if not same(res):
+                bad.append("any other character -> %s" % shown)
         stores = [e for e in t.events if e[0] == "setitem"]
-        okc = all(repr(e[3]) == repr(res) and same(e[2]) for e in stores)
-        ctx.ob(rule, okc, "what the encoder caches for a character is what it returns for it", func=q,
-               sig="cache store for a character %s %s" % (what, "matches" if okc else "differs from the returned value"), nontrivial=False)
+        okc = all((repr(e[3]) == repr(res)) and (same(e[2]) or e[2] == exact) for e in stores)
+        if not okc:
+            bad.append("cache store differs from the returned value")
+    ctx.ob(rule, not bad, "a reserved character becomes '%' + two upper-case hex digits of its code point, every other character is passed through unchanged, "
+           "and what the encoder caches for a character is what it returns for it", func=q,
+           sig="encoder outcomes: %d character(s) escaped as %%XX, all others unchanged" % len(encoded) if not bad else "encoder: %s" % "; ".join(bad[:3]))
     ctx.floor(rule, len(rows), 2, "encoder outcomes (in the set / outside)")
-    return set(sets[0]) if sets else set()
+    ctx.require(n_default >= 1, "no path of the encoder covers 'any other character'")
+    return encoded - passed
 
 
 def r4(ctx):
@@ -216,7 +196,7 @@ def r4(ctx):
                    detail=what)
         total += n_root
         if root is sk:
-            ctx.floor("R4", n_root, 8, "index/unpack operations in the attribute parser")
+            ctx.floor("R4", n_root, 1, "index/unpack operations in the attribute parser")
             # mapping reads
             for f in visited:
                 cfg = cfg_of(f)
@@ -231,7 +211,7 @@ def r4(ctx):
                            sig="%s in `%s`: %s" % (what, norm(_stmt(s_.node))[:70], j or "unguarded"))
         else:
             ctx.floor("R4", n_root, 1, "constant-index column reads in feature_from_line")
-    ctx.floor("R4", total, 20, "partial operations in the attribute parser and the line parser")
+    ctx.floor("R4", total, 5, "partial operations in the attribute parser and the line parser")
     ctx.extra["justifications"] = hist
     funcs = [sk] + [g for lst in sk.nested.values() for g in lst]
     raises = [n_ for f in funcs for n_ in ast.walk(f.node) if isinstance(n_, ast.Raise)]
@@ -278,31 +258,59 @@ def r5_r6(ctx):
         grows = [c for c in ast.walk(n) if isinstance(c, ast.Call) and call_attr(c) in ("append", "extend", "insert") and norm(c.func.value) == norm(src)]
         ctx.ob("R5", not grows, "no loop of the parser grows the sequence it iterates", node=n, func=sk,
                sig="loop over %s is bounded" % norm(src) if not grows else "loop over %s appends to it" % norm(src), nontrivial=False)
-    # ---- R6
-    funcs = [sk] + [g for lst in sk.nested.values() for g in lst]
-    n_st = 0
-    from ..util import own_nodes
-    for f in funcs:
-        for n in own_nodes(f.node):
-            if isinstance(n, ast.Assign) and isinstance(n.targets[0], ast.Subscript) and is_name(n.targets[0].value, "quals"):
-                n_st += 1
-                v = n.value
-                ok = isinstance(v, (ast.List, ast.ListComp)) or (isinstance(v, ast.Name) and _is_listcomp_name(f, v.id)) or \
-                    (isinstance(v, ast.Call) and (is_name(v.func, "list") or call_attr(v) in ("split", "copy")))
-                ctx.ob("R6", ok, "attribute values are created as lists", node=n, func=f, sig="quals[...] := %s" % norm(v)[:50])
-            if isinstance(n, ast.Call) and isinstance(n.func, ast.Attribute) and isinstance(n.func.value, ast.Subscript) and is_name(n.func.value.value, "quals"):
-                ok = n.func.attr in ("append", "extend")
-                ctx.ob("R6", ok, "value lists only ever grow by append/extend", node=n, func=f, sig="quals[...].%s(...)" % n.func.attr, nontrivial=False)
-    ctx.floor("R6", n_st, 1, "stores into the attribute mapping")
-    rets = [n for n in ast.walk(sk.node) if isinstance(n, ast.Return) and enclosing(n, ast.FunctionDef) is sk.node]
-    ok = all(isinstance(r.value, ast.Tuple) and len(r.value.elts) == 2 and norm(r.value.elts[0]) == "quals" and norm(r.value.elts[1]) == "dialect" for r in rets)
-    ctx.ob("R6", ok and len(rets) >= 3, "every exit returns (mapping, dialect)", func=sk, sig="returns %s" % sorted({norm(r.value) for r in rets}))
+    # ---- R6: on every parse of the template round trip (R2) the result is (mapping, dialect) and every value of the mapping a list of strings
+    n = ctx.extra.get("roundtrip_traces", 0)
+    bad = ctx.extra.get("roundtrip_nonlist", [])
+    ctx.floor("R6", n, 100, "template parses")
+    ctx.ob("R6", not bad, "every parse returns a mapping whose values are lists of strings (%d template parses)" % n, func=sk,
+           sig="values are lists of strings" if not bad else "values of %s are not lists of strings" % (bad[0][1],), detail=bad[0][0] if bad else "")
+    malformed(ctx)
 
 
-def _is_listcomp_name(f, name):
-    from ..util import single_assignment
-    v = single_assignment(f.node, name)
-    return isinstance(v, ast.ListComp)
+def malformed(ctx):
+    """R6 on malformed text: the parser's source evaluated (own evaluator, gffutils is not imported) on every string up to a
+    length bound over the structural alphabet, with a gff3 dialect, a GTF dialect and none: it returns (mapping, dialect) with
+    lists of strings, and never raises.  Bounded evidence next to the for-all statements of R4 (partial operations)."""
+    import itertools
+    from .. import printer
+    from ..absint import Unsupported, is_strlike
+    from .c07 import regex_patterns
+    sk = require_func(ctx, "parser._split_keyvals")
+    pat = None
+    for k, v in regex_patterns(ctx, "parser").items():
+        pat = (k, v)
+    base = {"leading semicolon": False, "trailing semicolon": False, "quoted GFF2 values": False, "field separator": ";",
+            "keyval separator": "=", "multival separator": ",", "fmt": "gff3", "repeated keys": False, "order": []}
+    gtf = dict(base, **{"fmt": "gtf", "quoted GFF2 values": True, "field separator": "; ", "keyval separator": " ", "trailing semicolon": True})
+    alphabet = ';= ",k%'
+    bound = 3 if ctx.tier == "quick" else 5
+    n = 0
+    bad = None
+    for ln in range(bound + 1):
+        for tup in itertools.product(alphabet, repeat=ln):
+            text = "".join(tup)
+            for name, d in (("gff3", base), ("gtf", gtf), ("inferred", None)):
+                try:
+                    traces = printer.parse_run(ctx, sk, text, None if d is None else dict(d, order=[]), pat)
+                except Unsupported as e:
+                    ctx.require(False, "attribute parser outside the analysable subset on %r: %s" % (text, e))
+                for t in traces:
+                    n += 1
+                    if bad is not None:
+                        continue
+                    if t.result[0] != "return":
+                        bad = "raises %s on %r (%s dialect)" % (t.result[1], text, name)
+                        continue
+                    res = t.result[1]
+                    if not (isinstance(res, tuple) and len(res) == 2 and isinstance(res[0], dict) and isinstance(res[1], dict)):
+                        bad = "returns %r on %r (%s dialect)" % (type(res).__name__, text, name)
+                        continue
+                    odd = [k for k, v_ in res[0].items() if not (isinstance(v_, list) and all(is_strlike(x) for x in v_))]
+                    if odd:
+                        bad = "value of %r is not a list of strings on %r (%s dialect)" % (odd[0], text, name)
+    ctx.floor("R6", n, 1000, "malformed-text parses")
+    ctx.ob("R6", bad is None, "every string up to length %d over the structural alphabet %r parses, with a gff3 dialect, a GTF dialect and none, to (mapping of lists of strings, dialect) without raising (%d parses)" % (bound, alphabet, n),
+           func=sk, sig="malformed text parses to lists of strings" if bad is None else "parser %s" % bad)
 
 
 def check(ctx):
